@@ -224,6 +224,10 @@ class Mode(LogMixin):
 
         self._setup_device_control_events()
 
+        if self._mode_start_wait_queue:
+            # we hold this wait queue until the mode stops: do not hand it to the handlers of our own queue event
+            kwargs = {k: v for k, v in kwargs.items() if k != 'queue'}
+
         self.machine.events.post_queue(event=MODE_STARTING_EVENT_TEMPLATE.format(self.name),
                                        callback=self._started, **kwargs)
         '''event: mode_(name)_starting
